@@ -415,6 +415,9 @@ fn build_float64_array_from_scalars(values: &[ScalarValue]) -> ArrayRef {
     for value in values {
         match value {
             ScalarValue::Float64(f) => builder.append_value(*f),
+            // Same as the row-index conversion in shared/response/arrow.rs: an integer cell of a
+            // Float column is a number, not a null.
+            ScalarValue::Int64(i) => builder.append_value(*i as f64),
             ScalarValue::Utf8(s) => {
                 if let Ok(f) = s.parse::<f64>() {
                     builder.append_value(f);
